@@ -318,6 +318,9 @@ impl<'a> Gen<'a> {
     /// body of a future operation: may await gates and other objects' futures
     pub fn future_body(&mut self, p: &Profile, o: usize, depth: u32) -> Vec<Step> {
         let mut b = vec![];
+        if self.rng.permille(40) {
+            b.push(Step::WakeSelf);
+        }
         if self.rng.permille(p.body_yield) {
             b.push(Step::Yield(self.rng.range(1, 2) as u8));
         }
